@@ -251,7 +251,7 @@ def run(ctx):
                 raise core.Inconclusive("rpch failed: " + p.stderr.decode()[-2000:])
     # gate walk: random scheduling at critical-section granularity (same trace format)
     gw = os.path.join(ctx.scratch, "gatewalk.ndjson")
-    ngw = 0 if ctx.replay else (150 if quick else 2000)
+    ngw = 0 if ctx.replay else (90 if quick else 1500)
     if ngw:
         with open(gw, "wb") as f:
             p = subprocess.run([h, "run", str(ngw), str(ctx.seed + 7919), "8"], stdout=f, stderr=subprocess.PIPE,
